@@ -21,6 +21,7 @@ type vfPuppetCfg struct {
 	AutoAck     bool   // SACK every DATA packet cumulatively
 	AckARwnd    uint32 // a_rwnd to advertise in SACKs (0 -> ARwnd)
 	ZeroCsumOut bool   // write packets with zero checksum
+	Active      bool   // the puppet initiates (INIT, COOKIE-ECHO); the real association is the server
 }
 
 type vfPuppet struct {
@@ -56,6 +57,16 @@ func (s *vfSim) newPuppet(side int, cfg vfPuppetCfg) *vfPuppet {
 	}
 	s.puppet[side] = true
 	go p.serve()
+	if cfg.Active {
+		ext := cfg.Ext
+		if ext == nil {
+			ext = []byte{vfCtReconfig, vfCtForwardTSN}
+		}
+		val := vfU32(cfg.Tag, cfg.ARwnd, 0xffffffff, cfg.InitTSN)
+		val = append(val, vfTLV(0x8008, ext)...)
+		val = append(val, cfg.ExtraParams...)
+		_, _ = p.conn.Write(vfNewPacket(5000, 5000, 0).chunk(vfCtInit, 0, val).bytes(true))
+	}
 
 	return p
 }
@@ -120,6 +131,33 @@ func (p *vfPuppet) serve() {
 				val = append(val, p.cfg.ExtraParams...)
 				b := vfNewPacket(5000, 5000, c.InitTag).chunk(vfCtInitAck, 0, val)
 				_, _ = p.conn.Write(b.bytes(true))
+			case vfCtInitAck:
+				if !p.cfg.Active {
+					break
+				}
+				p.mu.Lock()
+				p.peerTag = c.InitTag
+				p.peerTSN = c.InitTSN
+				p.cum = c.InitTSN - 1
+				p.peerExt = vfInitExtensions(c)
+				cc := *c
+				p.peerInit = &cc
+				p.mu.Unlock()
+				var cookie []byte
+				for _, pr := range c.Params {
+					if pr.Type == 7 {
+						cookie = pr.Val
+					}
+				}
+				// the COOKIE-ECHO always carries a correct CRC32c (it must, whatever was negotiated)
+				_, _ = p.conn.Write(vfNewPacket(5000, 5000, c.InitTag).chunk(vfCtCookieEcho, 0, cookie).bytes(true))
+			case vfCtCookieAck:
+				p.mu.Lock()
+				if p.cfg.Active && !p.estabSet {
+					p.estabSet = true
+					close(p.estab)
+				}
+				p.mu.Unlock()
 			case vfCtCookieEcho:
 				p.write(p.pkt().chunk(vfCtCookieAck, 0, nil))
 				p.mu.Lock()
@@ -203,11 +241,21 @@ func (s *vfSim) startWithPuppet(cfg vfPuppetCfg) (*vfPuppet, bool) {
 	go func() {
 		defer close(s.connDone[0])
 		opts := vfOptsFor(&s.spec.A, s.net.conns[0], s.sink, "vfA")
-		co := make([]ClientOption, len(opts))
-		for i, o := range opts {
-			co[i] = o
+		var a *Association
+		var err error
+		if cfg.Active {
+			so := make([]ServerOption, len(opts))
+			for i, o := range opts {
+				so[i] = o
+			}
+			a, err = ServerWithOptions(so...)
+		} else {
+			co := make([]ClientOption, len(opts))
+			for i, o := range opts {
+				co[i] = o
+			}
+			a, err = ClientWithOptions(co...)
 		}
-		a, err := ClientWithOptions(co...)
 		s.mu.Lock()
 		s.connErr[0] = err
 		if a != nil {
